@@ -269,6 +269,18 @@ func runC10(m *Sim) {
 			b[bit/8] ^= 1 << uint(bit%8)
 			expectReject("bitflip", "bit-flip@"+c10Field(bit/8, len(genuine)), b)
 		case 1: // truncation at a field boundary or anywhere
+			if len(genuine) >= 64 && m.C.Chance("malleated-signature", 1, 3) {
+				// The other root (s -> N-s) of the server's signature over the
+				// unchanged reply: a reply altered in many bits that anybody can
+				// produce.
+				b := append([]byte{}, genuine...)
+				var sig [64]byte
+				copy(sig[:], b[len(b)-64:])
+				sig = MalleateSig(sig)
+				copy(b[len(b)-64:], sig[:])
+				expectReject("malleated-signature", "malleated-server-signature", b)
+				continue
+			}
 			cuts := []int{0, 1, 2, 34, 38, 542, 574, 578, len(genuine) - 72, len(genuine) - 64, len(genuine) - 1}
 			c := cuts[m.C.Int("cut", len(cuts))]
 			if m.C.Chance("anywhere", 1, 3) {
